@@ -1,0 +1,11 @@
+//go:build verif
+
+// Contracts for package config, checked by /verif/govc (comment-only; compiled only with -tags verif).
+package config
+
+//@ prelude c03
+
+// A-CONFIG: a configuration answers one creation time per validation; cfgTime names it.
+
+//@ func (ValidationConfiguration) ReportCreationTime() time.Time
+//@   ensures-assumed [C03:A-CONFIG] result == cfgTime(self)
